@@ -406,7 +406,8 @@ func c27Finish(c *Ctx) {
 // ------------------------------------------------------------------ C28 / C29
 
 type c28State struct {
-	rp *remotePair
+	rp       *remotePair
+	noHeader map[int]bool // tags sent with a context that carries no header at all
 }
 
 func c28Run(c *Ctx) {
@@ -421,7 +422,8 @@ func c28Run(c *Ctx) {
 	}
 	c.Note("net", fmt.Sprintf("%+v", cfg))
 	rp := startRemotePair(c, cfg, remote.WithContextPropagator(tagPropagator{}))
-	c.state = &c28State{rp}
+	st28 := &c28State{rp: rp, noHeader: map[int]bool{}}
+	c.state = st28
 	nresp := 1 + c.W.Draw(2)
 	for i := 0; i < nresp; i++ {
 		p := rp.B.NewProbe(fmt.Sprintf("resp%d", i))
@@ -522,7 +524,15 @@ func c28Run(c *Ctx) {
 					resp, err := fpid.Ask(ctx, to, rmsg(tag, t, k, ops), timeout)
 					c28Check(c, rp, tag, resp, err)
 				case 2:
-					// RemoteTell with a header: checked by the receiver-side log (C29)
+					// RemoteTell with a header: checked by the receiver-side log (C29). Some tells
+					// carry no header at all: in a coalesced batch that mixes callers, the message
+					// must then be handled without any header - not with its batch neighbour's.
+					if c.W.Draw(3) == 2 {
+						st28.noHeader[tag] = true
+						ctx = rp.A.Ctx
+						hv = ""
+						c.Probe("tell-without-header")
+					}
 					rp.A.Ev(Ev{Actor: to.Name(), Kind: "tell-call", Tag: tag, From: t, Aux: hv})
 					_ = fpid.Tell(ctx, to, rmsg(tag, t, k, ""))
 				}
@@ -572,6 +582,9 @@ func c29Finish(c *Ctx) {
 			continue // the message of a call whose Inject failed (if it was sent at all, its own header is not judged)
 		}
 		want := fmt.Sprintf("h%d", e.Tag)
+		if st.noHeader[e.Tag] {
+			want = ""
+		}
 		if got, _ := e.Aux.(string); got != want && got != "batch" {
 			c.Fail("metadata-mismatch", "ContextPropagator", "message tag %d was handled with header %q restored, %q was injected at send time", e.Tag, e.Aux, want)
 			return
